@@ -130,6 +130,15 @@ def _check_step(r, rec, fresh, hist, lits_json):
         bad.append(("history-dependent-result:%s" % rec["op"], "the fresh-interpreter result", rec["short"]))
     if not bad:
         return True
+    if rec["state_diff"]:
+        # report a state change once: later steps are compared with the state as it is now
+        _W["S0"] = SN.snapshot()
+    seen = _W.setdefault("reported", set())
+    bad = [b for b in bad if b[0] not in seen]
+    if not bad:
+        r.notes["repeated_violation_keys_not_reconfirmed"] = r.notes.get("repeated_violation_keys_not_reconfirmed", 0) + 1
+        return False
+    seen.update(b[0] for b in bad)
     # confirm on the minimal history in a fresh interpreter, then on the worker's whole log
     lits = _lits_from_json(lits_json)
     for cand in (hist, list(_W["log"])):
